@@ -71,6 +71,10 @@ def run(prog: Program, res: Result) -> None:
             res.errors.append(f"{name}.correct has a shape the idempotence table does not cover: {vf.correct_detail}")
             continue
         ok = vf.idempotent is True
+        if vf.idempotent is None:
+            res.errors.append(f"{name}.correct ({vf.correct_kind}): idempotence undecided - the child kind's correct has a shape "
+                              f"the idempotence table does not cover")
+            continue
         res.ob(ok, f"{f.loc()} {name}.correct = {vf.correct_kind}: idempotent={vf.idempotent}", f"{name}.correct")
         if not ok:
             res.add(Finding(P, "C02.R4-correct-idempotent", f"models.{name}.correct::{vf.correct_kind}", f.loc(),
